@@ -237,6 +237,8 @@ def evaluate_probe(probe):
 def _evaluate_probe(probe):
     """Runs in a grandchild of the pristine zygote: no history whatsoever."""
     warnings.simplefilter("ignore")
+    if probe["kind"] == "variation":
+        return _VARIATION(probe["sc"], probe["probes"])
     CLOCK.set(probe["clock"])
     if probe["kind"] == "implicit":
         data = make_data(probe["data"], None)
@@ -326,10 +328,9 @@ class C17:
     LEVEL = "exploration"
     NO_PIN = True   # no baton threads here: let the OS scheduler place the workers
     RUN_S = 240   # watchdog allowance per run: every reference costs a (system-wide serialised) fork
-    RUNS_FORK_THEMSELVES = True
     TIERS = {
-        "quick": {"runs": 2400, "budget_s": 60, "chunk": 4, "determinism_runs": 12, "minimise_s": 30},
-        "thorough": {"runs": 400000, "budget_s": 1500, "chunk": 8, "determinism_runs": 64, "minimise_s": 240},
+        "quick": {"runs": 40000, "budget_s": 55, "chunk": 8, "determinism_runs": 24, "minimise_s": 40},
+        "thorough": {"runs": 2000000, "budget_s": 1500, "chunk": 16, "determinism_runs": 128, "minimise_s": 240},
     }
     RULE = ("Each run is one seeded history: 1-3 environments (some with identical recipes), 1-3 templates each "
             "(generated trees incl. every stateful tag, plus a clock/date template), 2-5 data specs incl. "
@@ -357,6 +358,10 @@ class C17:
 
     def process_init(self):
         fork.init_zygote(evaluate_probe)
+        fork.init_companion(evaluate_probe)
+
+    def trial_init(self):
+        fork.init_companion(evaluate_probe)
 
     # -- generation ------------------------------------------------------------
     def gen(self, run_seed, tier):
@@ -506,14 +511,20 @@ class C17:
         # whose outcome depends on what ran before it differs between A and B; (C) a sample of
         # the renders is also compared with the pristine fork (no history at all), which catches
         # dependence that happens to be symmetric under reordering.
-        res = fork.run_in_fork(self._run_here, sc, timeout_s=900)
+        # (A) runs in THIS process.  State the code under test leaves behind in the process
+        # therefore carries over to the next history of this worker; the driver records each
+        # worker's history and replays / minimises a violation that needs it with that prelude.
+        # (B) and (C) run in fresh children of the pristine zygote, which never renders anything:
+        # the first probe B evaluates (the history's last) is thereby a pristine evaluation too.
+        res = self._run_here(sc)
         probes = res.pop("probes")
         st = res["stats"]
         if res["violations"] or not probes:
             return res
         viol = res["violations"]
-        var = fork.run_in_fork(self._run_variation, sc, probes)
-        bump(st, "variation_forks")
+        zy = fork.zygote()
+        var = fork.companion().ask({"kind": "variation", "sc": sc, "probes": probes})
+        bump(st, "variation_batches")
         for p in probes:
             want = tuple(var[p["uid"]])
             got = tuple(p["got"])
@@ -527,11 +538,11 @@ class C17:
                 break
         if viol:
             return res
-        zy = fork.zygote()
         f0 = zy.forks
         rng = Rng(sc["sched_seed"], ("pristine-sample",))
-        chosen = [probes[-1]] + [p for p in probes[:-1] if rng.chance(sc.get("pristine_p", 0.15))]
-        for p in chosen[: sc.get("pristine_max", 3)]:
+        # (C) one probe of some histories in a process with no history at all
+        chosen = [rng.choice(probes)] if rng.chance(sc.get("pristine_p", 0.15)) else []
+        for p in chosen:
             want = tuple(self._pristine(zy, sc, p, res))
             got = tuple(p["got"])
             bump(st, "reach.pristine_compared")
@@ -857,6 +868,9 @@ class C17:
 def _brief(o):
     s = repr(o)
     return s if len(s) < 900 else s[:900] + "..."
+
+
+_VARIATION = C17()._run_variation
 
 
 if __name__ == "__main__":
